@@ -10,6 +10,7 @@ static fc_ctx C;
 static const fc_desc* all[400];
 static unsigned nall;
 static int mode; /* 0 alloc, 1 badarg, 2 wipe, 3 base */
+static int mem_only; /* variant badmem (C07): the bad-argument calls, judged for memory safety only */
 static const char* only_name;
 
 /* ------------------------------------------------------------ ctx helpers */
@@ -28,6 +29,14 @@ octet* fc_raw(fc_ctx* c, size_t n)
 	(void)c;
 	memset(p, 0, n);
 	return p;
+}
+
+octet* fc_cut(fc_ctx* c, const void* p, size_t n)
+{
+	octet* q = (octet*)sk_alloc(n ? n : 1);
+	(void)c;
+	memcpy(q, p, n);
+	return q;
 }
 
 void fc_mark_sec(fc_ctx* c, const void* p, size_t n)
@@ -117,7 +126,7 @@ static int common_post(const fc_desc* d, sk_result* out, const char* stage)
 		sk_violate(out, cls, "%s (%s): write outside an exactly sized block (red-zone canary damaged)", d->name, stage);
 		return 0;
 	}
-	if (C.damage)
+	if (C.damage && !mem_only)
 	{
 		snprintf(cls, sizeof(cls), "damage_after_failed_call:%s", d->name);
 		sk_violate(out, cls, "%s (%s): %s", d->name, stage, C.damage);
@@ -316,6 +325,8 @@ static void run_badarg(const fc_desc* d, unsigned di, uint64_t seed, const sk_ma
 			sk_sig_add(sk_mix(((uint64_t)di << 32) | ((uint64_t)(j1 + 1) << 8) | (uint64_t)(j2 + 1), 12));
 			if (!common_post(d, out, "bad argument"))
 				return;
+			if (mem_only)
+				continue;   /* the error class, leaks and released data are C09's; here the call only has to stay inside its buffers */
 			if (rc == ERR_OK && in_class(ERR_OK, exp, n1 + n2))
 				sk_count("probe.soft_variant_accepted", 1); /* hard-to-check \\expect condition: robustness only */
 			else if (rc == ERR_OK)
@@ -746,6 +757,7 @@ static void init(const sk_opts* o)
 	add_table(fc_sm, fc_sm_n);
 	if (!strncmp(v, "alloc", 5)) mode = 0;
 	else if (!strncmp(v, "badarg", 6)) mode = 1;
+	else if (!strncmp(v, "badmem", 6)) mode = 1, mem_only = 1;
 	else if (!strncmp(v, "wipe", 4)) mode = 2;
 	else mode = 3;
 	if (colon)
